@@ -295,6 +295,7 @@ pub struct Gen {
     pub stack_edge: Option<u64>, // next stack-like case: put RSP here (edges of the stack area, read-only / unmapped memory)
     pub next_drain: u8,
     pub next_shift: u64,
+    pub next_imm: Option<i64>, // force the immediate of the next case (boundary sweeps)
 }
 
 struct MemPlan {
@@ -308,7 +309,7 @@ struct MemPlan {
 
 impl Gen {
     pub fn new(seed: u64) -> Self {
-        Gen { rng: StdRng::seed_from_u64(seed), next_id: 0, last_divisor: None, iter_hint: usize::MAX, stack_edge: None, next_drain: 0, next_shift: 0 }
+        Gen { rng: StdRng::seed_from_u64(seed), next_id: 0, last_divisor: None, iter_hint: usize::MAX, stack_edge: None, next_drain: 0, next_shift: 0, next_imm: None }
     }
 
     fn pick<T: Copy>(&mut self, v: &[T]) -> T {
@@ -520,7 +521,18 @@ impl Gen {
                 K::rax => ops.push(O::R(Register::RAX)),
                 K::imm8_const_1 => ops.push(O::I(1)),
                 K::imm8 | K::imm8sex16 | K::imm8sex32 | K::imm8sex64 | K::imm16 | K::imm32 | K::imm32sex64 | K::imm64 => {
-                    let v = self.imm_for(k);
+                    let mut v = self.imm_for(k);
+                    if let Some(f) = self.next_imm.take() {
+                        // forced value, cut to what the immediate field can hold
+                        v = match k {
+                            K::imm8 => f & 0xff,
+                            K::imm8sex16 | K::imm8sex32 | K::imm8sex64 => (f as i8) as i64,
+                            K::imm16 => f & 0xffff,
+                            K::imm32 => f & 0xffff_ffff,
+                            K::imm32sex64 => (f as i32) as i64,
+                            _ => f,
+                        };
+                    }
                     ops.push(O::I(v))
                 }
                 K::br64_1 | K::br64_4 => ops.push(O::Br(PADS[pad] + shift)),
@@ -934,6 +946,38 @@ impl Gen {
     }
 }
 
+/// give operand k of the case's instruction the value v (register: its view; memory: the bytes at the operand's address)
+pub fn set_operand(c: &mut Case, k: u32, v: u64) {
+    match c.instr.op_kind(k) {
+        OpKind::Register => {
+            let r = c.instr.op_register(k);
+            if let Some(ix) = gpr_index(r.full_register()) {
+                if matches!(r, Register::AH | Register::BH | Register::CH | Register::DH) {
+                    c.pre.regs[ix] = (c.pre.regs[ix] & !0xff00) | ((v & 0xff) << 8);
+                } else {
+                    let m64 = if r.size() == 8 { u64::MAX } else { (1u64 << (r.size() * 8)) - 1 };
+                    c.pre.regs[ix] = (c.pre.regs[ix] & !m64) | (v & m64);
+                }
+            }
+        }
+        OpKind::Memory => {
+            let mut b = v.to_le_bytes().to_vec();
+            b.truncate(c.mem_w.min(8) as usize);
+            let t = c.mem_target;
+            c.pre.ov.retain(|(a, _)| *a != t);
+            c.pre.ov.push((t, b));
+        }
+        _ => {}
+    }
+}
+
+/// operand values at which carries, borrows and signed overflow change, for a w-bit operand
+fn boundaries(w: u32) -> Vec<u64> {
+    let mask = if w == 64 { u64::MAX } else { (1u64 << w) - 1 };
+    let top = 1u64 << (w - 1);
+    vec![0, 1, mask, top, top - 1, top + 1, mask - 1]
+}
+
 // ---- running a case on ax ------------------------------------------------------------------------------------------
 pub fn run_ax(c: &Case, lay: &Layout) -> Post {
     let r = catch_unwind(AssertUnwindSafe(|| -> Result<Post, String> {
@@ -1308,7 +1352,80 @@ pub fn gen_family(g: &mut Gen, family: &str, per_form: usize, forms: &std::colle
             }
         }
     }
+    if family == "data" {
+        boundary_sweep(g, forms, &mut out);
+    }
     out
+}
+
+/// Deterministic boundary sweep (not sampled): every two-operand arithmetic / logic form with both operands drawn from the
+/// boundary set of its width {0, 1, -1, MIN, MAX, MIN+1, -2} and both carry-in values - where carries, borrows and signed
+/// overflow change.  Immediates are forced to the boundary values their field can hold.
+fn boundary_sweep(g: &mut Gen, forms: &std::collections::HashMap<String, Vec<String>>, out: &mut Vec<Case>) {
+    let mut names: Vec<&String> = forms.keys().collect();
+    names.sort();
+    for name in names {
+        let code = match code_by_name(name) {
+            Some(c) => c,
+            None => continue,
+        };
+        let m = code.mnemonic();
+        if !matches!(m, Mnemonic::Adc | Mnemonic::Add | Mnemonic::Sub | Mnemonic::Cmp | Mnemonic::And | Mnemonic::Xor | Mnemonic::Test) {
+            continue;
+        }
+        let oc = code.op_code();
+        if oc.op_count() != 2 {
+            continue;
+        }
+        let shapes = &forms[name];
+        let has_mem = shapes.iter().any(|s| s == "mem");
+        let has_reg = shapes.iter().any(|s| s == "reg");
+        let has_imm = matches!(oc.op_kind(1), K::imm8 | K::imm8sex16 | K::imm8sex32 | K::imm8sex64 | K::imm16 | K::imm32 | K::imm32sex64);
+        // operand width from the first operand kind
+        let w: u32 = match oc.op_kind(0) {
+            K::r8_or_mem | K::r8_reg | K::al => 8,
+            K::r16_or_mem | K::r16_reg | K::ax => 16,
+            K::r32_or_mem | K::r32_reg | K::eax => 32,
+            K::r64_or_mem | K::r64_reg | K::rax => 64,
+            _ => continue,
+        };
+        let bs = boundaries(w);
+        let mut n = 0usize;
+        for &a in bs.iter() {
+            for &b in bs.iter() {
+                for cf in 0..2u64 {
+                    if m != Mnemonic::Adc && cf == 1 && (a.wrapping_add(b)) % 3 != 0 {
+                        continue; // the carry-in only matters for ADC: a third of the pairs for the others
+                    }
+                    n += 1;
+                    let use_mem = has_mem && (!has_reg || n % 3 == 0);
+                    if has_imm {
+                        g.next_imm = Some(b as i64);
+                    }
+                    let shape = [MemShape::Base, MemShape::BaseDisp8, MemShape::Abs32][n % 3];
+                    if let Some(mut c) = g.make(code, "data", use_mem, shape, Place::Rw, false, Register::None, 0) {
+                        // distinct registers are needed to give both operands their values
+                        let same = c.instr.op0_kind() == OpKind::Register && c.instr.op1_kind() == OpKind::Register
+                            && c.instr.op0_register().full_register() == c.instr.op1_register().full_register();
+                        let ea_uses = |c: &Case, r: Register| c.instr.memory_base().full_register() == r.full_register() || c.instr.memory_index().full_register() == r.full_register();
+                        let clash = (c.instr.op0_kind() == OpKind::Register && c.shape != "reg" && ea_uses(&c, c.instr.op0_register()))
+                            || (c.instr.op1_kind() == OpKind::Register && c.shape != "reg" && ea_uses(&c, c.instr.op1_register()));
+                        if same || clash {
+                            continue;
+                        }
+                        set_operand(&mut c, 0, a);
+                        if !has_imm {
+                            set_operand(&mut c, 1, b);
+                        }
+                        c.pre.fl = (c.pre.fl & !1) | cf;
+                        c.shape = format!("{}/boundary", c.shape);
+                        out.push(c);
+                    }
+                    g.next_imm = None;
+                }
+            }
+        }
+    }
 }
 
 /// probe which (code, reg|mem) forms execute on the current tree (used once to create spec/forms.json)
